@@ -323,4 +323,35 @@ theorem hit_is_current (E : Env W Q A U K) (hk : KeyDetermines E) (w : W) (ths :
     (q : Q) (a : A) (hit : s.cache (E.key q) = some a) : a = E.ans s.inner q :=
   interleaved_transparent E hk w ths h0 s h hs _ _ hit q rfl
 
+
+/-- With one memoizer per graph, histories through any number of handles are transparent. -/
+theorem multi_transparent (E : Env W Q A U K) (hk : KeyDetermines E) (ops : List (HOp Q U)) (s : Multi W K A)
+    (hi : ∀ k a, s.caches 0 k = some a → ∀ q, E.key q = k → a = E.ans s.inner q) :
+    Multi.run true E s ops = directH E s.inner ops := by
+  induction ops generalizing s with
+  | nil => rfl
+  | cons op ops ih =>
+    cases op with
+    | read h q =>
+      simp only [Multi.run, directH, slot, if_true]
+      cases hc : s.caches 0 (E.key q) with
+      | some a =>
+        simp only
+        rw [hi _ _ hc q rfl, ih s hi]
+      | none =>
+        simp only
+        rw [ih]
+        intro k a hka q' hq'
+        simp only at hka
+        by_cases hkk : k = E.key q
+        · simp only [hkk, and_self, if_true, Option.some.injEq] at hka
+          rw [← hka]; exact hk _ _ _ (hq'.trans hkk).symm
+        · simp only [hkk, and_false, if_false] at hka
+          exact hi k a hka q' hq'
+    | write h u =>
+      simp only [Multi.run, directH, slot, if_true]
+      rw [ih]
+      intro k a hka
+      simp at hka
+
 end BW.Proofs.Memo
